@@ -537,13 +537,19 @@ theorem J_create (hJ : J s) (hag : s.p.act g = true) (hpg : s.p.prog g = []) (re
       simp [GoluaVerif.Model.CoSeq.Thread.fresh, hJ.beyond s.d.n (Nat.le_refl _)]
     · simp [hkn]
 
-theorem J_mark (hJ : J s) (hag : s.p.act g = true) (hpg : s.p.prog g = []) (rest : List Op) :
-    J (load s g { s.d with th := upd s.d.th s.d.cur { s.d.th s.d.cur with tbc := (s.d.th s.d.cur).tbc + 1 } }
-        [] rest) := by
+theorem J_settbc (hJ : J s) (hag : s.p.act g = true) (hpg : s.p.prog g = []) (n : Nat) (path : List Ev)
+    (hpath : path = [] ∨ path = [Ev.run]) (rest : List Op) :
+    J (load s g { s.d with th := upd s.d.th s.d.cur { s.d.th s.d.cur with tbc := n } } path rest) := by
   have hcur := cur_of_idle hJ hag hpg
   obtain ⟨sp, hR⟩ := hJ.r
-  refine J_load hJ hag hpg _ _ rest true ⟨_, GoluaVerif.Proofs.C09Seq.R_mark hR⟩ (by simp [seg]) ?_ ?_
-    (Or.inl ⟨noChan_nil, hcur⟩)
+  have hseg : seg (true, []) path = some (true, []) := by
+    rcases hpath with rfl | rfl <;> simp [seg, segStep]
+  have hnc : NoChan path := by
+    rcases hpath with rfl | rfl
+    · exact noChan_nil
+    · intro e he; simp at he; subst he; simp
+  refine J_load hJ hag hpg _ _ rest true ⟨_, GoluaVerif.Proofs.C09Seq.R_settbc hR n⟩ hseg ?_ ?_
+    (Or.inl ⟨hnc, hcur⟩)
   · intro k hk
     by_cases hkc : k = s.d.cur
     · rw [hkc]; simp; rw [← hkc]; exact hJ.beyond k hk
@@ -637,7 +643,14 @@ theorem J_expand (hJ : J s) {s' : St} (h : expand s g = some s') : J s' := by
       | mark =>
         simp [GoluaVerif.Model.CoSeq.step] at h
         subst h
-        exact J_mark hJ hag hpg rest
+        exact J_settbc hJ hag hpg _ [] (Or.inl rfl) rest
+      | unmark e =>
+        by_cases hz : (s.d.th s.d.cur).tbc = 0
+        · simp [GoluaVerif.Model.CoSeq.step, hz] at h; subst h
+          exact J_load hJ hag hpg s.d [Ev.run] rest true hJ.r (by simp [seg, segStep]) hJ.beyond
+            (fun _ _ => Iff.rfl) (Or.inl ⟨by intro e he; simp at he; subst he; simp, hcur⟩)
+        · simp [GoluaVerif.Model.CoSeq.step, hz] at h; subst h
+          exact J_settbc hJ hag hpg _ [Ev.run] (Or.inr rfl) rest
   · cases h
 
 end expand
@@ -724,6 +737,8 @@ theorem expand_defined {s : St} {g : Nat} (hJ : J s) (hag : s.p.act g = true) (h
       · rename_i h0; exact finish_defined hJ hag hpg h0 (Or.inl rfl)
     | create => simp [GoluaVerif.Model.CoSeq.step]
     | mark => simp [GoluaVerif.Model.CoSeq.step]
+    | unmark e =>
+      by_cases hz : (s.d.th s.d.cur).tbc = 0 <;> simp [GoluaVerif.Model.CoSeq.step, hz]
 
 /-- a goroutine whose next event is neither a send nor a receive can take a step, or whoever
     holds the mutex it wants can -/
